@@ -7,7 +7,8 @@
    of the analysis.
 
      edge a b            b is listed as a successor of block a
-     is_exit e           block e has no successor (the last block, a `return`)
+     is_exit e           execution can end in block e: it has no successor, or its branch has no false target
+                         (the condition of a trailing `while` / `if` without `else`)
      escapes y a         some path from a to an exit avoids y (a itself included)
      postdom y a         ~ escapes y a: every path from a to an exit visits y
      ctl_dependent b y   y post-dominates a successor of b, and y does not
@@ -36,8 +37,17 @@ Section Ctl.
 
   Definition edge (a b : N) : Prop :=
     exists blk, In blk bs /\ b_index blk = a /\ In b (b_succs blk).
+  (* execution can end in blk (Spec.SsaEffects.ssa_prog halts): it has no successor, or a branch of it has no
+     false target - none recorded and not exactly one successor besides the true target: the condition of a
+     trailing `while` or of a trailing `if` without `else` (fourth proof round; until then only blocks without
+     successor counted, and in a graph whose last statement is a loop NO block was an exit, every block
+     post-dominated every block vacuously and the closure below was demanded of unrelated blocks) *)
+  Definition falls_off (blk : block) : Prop :=
+    b_succs blk = [] \/
+    exists m c t, In (SIf m c t None) (b_stmts blk) /\
+                  forall x, filter (fun y => negb (N.eqb y t)) (b_succs blk) <> [x].
   Definition is_exit (e : N) : Prop :=
-    exists blk, In blk bs /\ b_index blk = e /\ b_succs blk = [].
+    exists blk, In blk bs /\ b_index blk = e /\ falls_off blk.
 
   Definition edge_avoiding (y a b : N) : Prop := edge a b /\ a <> y /\ b <> y.
   Definition escapes (y a : N) : Prop :=
@@ -63,8 +73,17 @@ Section Ctl.
     flat_map (fun b => map (fun s => (b_index b, s)) (b_succs b)) bs.
   Definition avoiding_edges (y : N) : list (N * N) :=
     filter (fun e => negb (N.eqb (fst e) y) && negb (N.eqb (snd e) y)) all_succ_edges.
+  Definition falls_off_b (blk : block) : bool :=
+    match b_succs blk with
+    | [] => true
+    | _ => existsb (fun s => match s with
+                             | SIf _ _ t None =>
+                               match filter (fun y => negb (N.eqb y t)) (b_succs blk) with [_] => false | _ => true end
+                             | _ => false
+                             end) (b_stmts blk)
+    end.
   Definition is_exit_b (e : N) : bool :=
-    existsb (fun blk => N.eqb (b_index blk) e && match b_succs blk with [] => true | _ => false end) bs.
+    existsb (fun blk => N.eqb (b_index blk) e && falls_off_b blk) bs.
   Definition escapes_b (y a : N) : bool :=
     negb (N.eqb a y) &&
     match multi_step_refl N.eqb (avoiding_edges y) a with
